@@ -364,6 +364,7 @@ def parseOutcome (s : String) : Option Outcome :=
 structure RtReq where
   kp : Nat
   ks : Nat
+  km : Nat
   script : List Bool
   outs : List Outcome
   pub : String
@@ -371,24 +372,25 @@ structure RtReq where
 
 def parseRtReq (f : List String) (rec : List String) : Option RtReq :=
   match f with
-  | [kp, ks, sc, os] => do
+  | [kp, ks, km, sc, os] => do
     let kp ← kp.toNat?
     let ks ← ks.toNat?
+    let km ← km.toNat?
     let sc ← parseBits sc
     let os ← (splitOr os ",").mapM parseOutcome
     let p ← (recGet rec "pub").bind hexStr?
     let s ← (recGet rec "sub").bind hexStr?
-    pure ⟨kp, ks, sc, os, p, s⟩
+    pure ⟨kp, ks, km, sc, os, p, s⟩
   | _ => none
 
 def modelRt (q : RtReq) : String :=
-  let w := routerRun "h" q.pub q.sub q.kp q.ks 0 q.outs { pw := { script := q.script } }
+  let w := routerRun "h" q.pub q.sub q.kp q.ks q.km 0 q.outs { pw := { script := q.script } }
   let settle := String.ofList (w.settles.map (fun s => match s with | .ack => 'a' | .nack => 'n' | .none => '-'))
   -- result of each innermost Publish call: the script, as far as it was consumed
   let calls := (List.range w.pw.calls.length).zip w.pw.calls |>.map (fun (i, c) =>
     (if q.script.getD i false then "e:inner" else "ok") ++ s!":{c.msgs.length}")
   let keys := w.hobs.map hdlKey ++ w.pw.obs.map pubKey ++ w.sobs.map subKey
-  s!"settle={if settle.isEmpty then "-" else settle}|pub={sepOr calls ";"}|inv={w.hobs.length}|metrics={countLines keys}|close=ok"
+  s!"settle={if settle.isEmpty then "-" else settle}|pub={sepOr calls ";"}|inv={w.settles.length}|metrics={countLines keys}|close=ok"
 
 /-! ### the property monitor (independent of the model functions) -/
 
@@ -590,7 +592,6 @@ def monitorSub (q : SubReq) (obs : String) : String := Id.run do
   let some bS := section? secs "B" | return "bad-op"
   let some closeS := section? secs "close" | return "bad-op"
   let some chanS := section? secs "chan" | return "bad-op"
-  if secs.length ≠ 6 then return "violated:liveness"     -- a quiesce-timeout marker
   if closeS ≠ (if q.closeErr then "e:close" else "ok") ++ "/1" then return "violated:close_once_result_passes"
   if q.subErr then
     if subS ≠ "e:sub" ∨ recvS ≠ "-" then return "violated:subscribe_error_passes"
@@ -625,6 +626,7 @@ def monitorSub (q : SubReq) (obs : String) : String := Id.run do
     if metricCount mb "sub" lblAcked ≠ na + nu ∨ metricCount mb "sub" lblNacked ≠ nn ∨ famTotal mb "sub" ≠ na + nn + nu then
       return "violated:metrics_subscribe_once"
   else if !(ma ++ mb).isEmpty then return "violated:metrics_foreign_series"
+  if secs.length ≠ 6 then return "violated:liveness"     -- a quiesce-timeout marker and nothing more specific
   return "ok"
 
 def countChar (s : String) (c : Char) : Nat := (s.toList.filter (· = c)).length
@@ -644,10 +646,12 @@ def monitorRt (q : RtReq) (obs : String) : String := Id.run do
   let calls := splitOr pubS ";"
   let pOk := (calls.filter (·.startsWith "ok:")).length
   let pErr := (calls.filter (·.startsWith "e:inner:")).length
-  -- handler middleware: one observation per invocation; success iff the handler returned nil without panicking
+  -- handler middleware: one observation per invocation (and per application of the middleware: it carries no
+  -- idempotency mark; the property speaks of the middleware applied once, km = 1); success iff the handler returned
+  -- nil without panicking
   let hOk := (q.outs.filter (fun o => match o with | .ok _ => true | _ => false)).length
   if inv ≠ q.outs.length then return "violated:handler_invocations"
-  if metricCount ms "hdl" lblTrue ≠ hOk ∨ metricCount ms "hdl" lblFalse ≠ inv - hOk ∨ famTotal ms "hdl" ≠ inv then
+  if metricCount ms "hdl" lblTrue ≠ q.km * hOk ∨ metricCount ms "hdl" lblFalse ≠ q.km * (inv - hOk) ∨ famTotal ms "hdl" ≠ q.km * inv then
     return "violated:metrics_handler_once"
   if q.kp > 0 then
     if metricCount ms "pub" lblTrue ≠ pOk ∨ metricCount ms "pub" lblFalse ≠ pErr ∨ famTotal ms "pub" ≠ calls.length then
